@@ -105,6 +105,29 @@ class _Subst(ast.NodeTransformer):
     visit_ListComp = visit_SetComp = visit_GeneratorExp = visit_DictComp = _comp
 
 
+def _islice_as_slice(it):
+    """itertools.islice(X, a, b) read as the elements X[a:b] (the loop rules ask which elements are visited;
+    a sequence changed while it is iterated is outside every rule's fragment either way)"""
+    def conv(e):
+        if isinstance(e, ast.Call) and (access_path(e.func) or "").split(".")[-1] == "islice" and not e.keywords and 2 <= len(e.args) <= 3:
+            none = lambda a: isinstance(a, ast.Constant) and a.value is None
+            if len(e.args) == 2:
+                lo, hi = None, e.args[1]
+            else:
+                lo, hi = e.args[1], e.args[2]
+            lo = None if lo is None or none(lo) or (isinstance(lo, ast.Constant) and lo.value == 0) else lo
+            hi = None if hi is None or none(hi) else hi
+            if lo is None and hi is None:
+                return e.args[0]
+            return ast.copy_location(ast.Subscript(value=e.args[0], slice=ast.Slice(lower=lo, upper=hi, step=None), ctx=ast.Load()), e)
+        return e
+    it = conv(it)
+    if isinstance(it, ast.Call) and isinstance(it.func, ast.Name) and it.func.id in ("zip", "enumerate"):
+        it = copy.copy(it)
+        it.args = [conv(a) for a in it.args]
+    return it
+
+
 def _simplify_index(seq, idx):
     """X[a:][k] -> X[k + a];  list(X)[k] stays"""
     if isinstance(seq, ast.Subscript) and isinstance(seq.slice, ast.Slice) and seq.slice.step is None \
@@ -584,7 +607,7 @@ class Terms:
     # ------------------------------------------------------------------ loops
     def _loop_info(self, st, env, dirty):
         info = LoopInfo(st)
-        it = self.expand(st.iter, env=env, dirty=dirty)
+        it = _islice_as_slice(self.expand(st.iter, env=env, dirty=dirty))
         tgt = st.target
 
         def set_range(rb):
